@@ -357,8 +357,11 @@ pub fn run(ctx: &Ctx) -> ! {
         let mut worst_bpb = 0f64;
         let mut worst_npb = 0f64;
         let mut last_ns = 0;
+        // the big product sets run at fewer sizes: two for a prefix with a two-token second phase, one for the
+        // thorough-only sets with a two-token prefix or first phase
         let few = matches!(f, Family::Periodic(x) if !x.p.is_empty() && x.v.len() == 2);
-        for &n in sizes.iter().filter(|n| !few || **n == 256 || **n == 4096) {
+        let single = matches!(f, Family::Periodic(x) if x.p.len() == 2 || (!x.p.is_empty() && x.u.len() == 2));
+        for &n in sizes.iter().filter(|n| (!few || **n == 256 || **n == 4096) && (!single || **n == 1024)) {
             let data = std::sync::Arc::new(f.bytes(n));
             // min of 2 runs for the time; allocation is deterministic
             let c = measured_parse(data.clone());
